@@ -11,6 +11,7 @@ import F1Verif.Drive.Plan
 import F1Verif.Drive.Run
 import F1Verif.Drive.Pool
 import F1Verif.Drive.Render
+import F1Verif.Drive.Gaussian
 /-!
 Line-protocol driver (`f1model`). One case per line on stdin:
 
@@ -26,6 +27,7 @@ def dispatch (op : String) : Option (List String → List String → Option (Str
   | "verdict" => some verdict
   | "dist" => some dist
   | "run" => some runOp
+  | "gauss" => some gauss
   | "render" => some render
   | "tmpl" => some tmplOp
   | "jobcounter" => some jobcounter
